@@ -27,7 +27,7 @@ def run(argv, stdin_mode="pipe", stdout_mode="pipe", input_text="", env=None, ti
         os.close(s_out)
     out = b""
     try:
-        pipe_input = input_text.encode() if stdin_mode == "pipe" else None
+        pipe_input = (input_text if isinstance(input_text, bytes) else input_text.encode()) if stdin_mode == "pipe" else None
         if stdin_mode == "pipe" and stdout_mode == "tty":
             try:
                 p.stdin.write(pipe_input)
@@ -36,7 +36,7 @@ def run(argv, stdin_mode="pipe", stdout_mode="pipe", input_text="", env=None, ti
                 pass
             p.stdin = None
         elif stdin_mode == "tty" and input_text:
-            os.write(m_in, input_text.encode())
+            os.write(m_in, input_text if isinstance(input_text, bytes) else input_text.encode())
         if stdout_mode == "tty":
             t0 = time.time()
             while True:
